@@ -1,6 +1,6 @@
 #!/bin/bash
 # run every claimed check (quick tier by default) on the current tree; prints rc per property
-cd /verif
+cd "$(dirname "$0")/.."
 tier=${1:-quick}
 for c in $(python3 -c "import json; print(' '.join(x['property_id'] for x in json.load(open('MANIFEST.json'))['checks']))"); do
   s=$(date +%s)
